@@ -161,6 +161,13 @@ def run(tier, seed, jobs):
                   "label": "INBOX(4): flag changes around an EXPUNGE that renumbers, the other session quiet until it synchronises"})
     plans.append({"cfg_ref": ("vf.props.c04", "cfg", ["oddkw"]), "alphabet": alphabet_keywords(tier), "depth": 2 if tier == "quick" else 4,
                   "label": "init=oddkw: keywords that are pieces of system flag names through APPEND / COPY / MOVE / STORE"})
+    # a flag taken off after the mailbox was loaded from the database stays off when it is loaded again (rows of emptied sequences)
+    A = "A"
+    reload_ab = [{"s": "env", "op": "restart"}, {"s": A, "op": "store", "set": "1", "mode": "-", "flags": "\\Flagged"},
+                 {"s": A, "op": "store", "set": "1", "mode": "-", "flags": "kw"}, {"s": A, "op": "store", "set": "2", "mode": "=", "flags": ""},
+                 {"s": A, "op": "store", "set": "2", "mode": "+", "flags": "\\Flagged"}, {"s": A, "op": "fetch", "set": "1:*", "items": "(FLAGS)", "uid": True}]
+    plans.append({"cfg_ref": ("vf.props.c04", "cfg", ["mixed"]), "alphabet": reload_ab, "depth": 4 if tier == "quick" else 5,
+                  "label": "init=mixed: flags taken off between two restarts (the mailbox is loaded from the database, changed, loaded again)"})
     res = run_h(PROP, RULES, plans, ("C04",), jobs, seed,
                  ["two read-write sessions on INBOX(2) (B may switch to EXAMINE); flag lists as in the alphabet "
                   "(system flags, $Fwd, keywords equal to MH sequence names in the thorough tier)",
